@@ -8,6 +8,10 @@ from .registry import Spec, Batch, new_metric, fresh_cfg, cat_batches
 
 def observe(m):
     """compute() canonicalised: ('ok', [tensor,…]) | ('err', kind, msg)."""
+    if type(m).__name__ == "FrechetAudioDistance" and (m.pred_n < 2 or m.target_n < 2):
+        # known finding C14|gaussian_frechet_distance|non-finite-covariance: torch.linalg.eigvals on a
+        # NaN matrix kills the interpreter in this build; never run it in-process.
+        return ("err", "WouldCrash", "compute() with fewer than 2 embeddings feeds NaN to torch.linalg.eigvals")
     try:
         r = m.compute()
     except Exception as e:  # noqa: BLE001
